@@ -228,7 +228,7 @@ def run_a2(case, ctx):
   from vf import qenv, qcompare
   from qkeras import quantizers as Q
   cls = case["cls"]
-  kw = {k: v for k, v in case["kw"].items() if not isinstance(v, (list, tuple)) and v != qlattice.PTS}
+  kw = {k: v for k, v in case["kw"].items() if not isinstance(v, (list, tuple)) and v not in qlattice.PLACEHOLDERS}
   if not qlattice.valid(cls, kw):
     return
   rnd = random.Random(case["seed"] * 31 + case["idx"])
@@ -318,6 +318,12 @@ def run_b(case, ctx):
   from qkeras import quantizers as Q
   cls = case["cls"]
   K.set_learning_phase(0)
+  if case["kw"].get("alpha") in (qlattice.ARR_COL, qlattice.ARR_ROW):
+    # a tensor-valued alpha prints as a numpy array (brackets, blanks, line breaks): outside the literal
+    # grammar of the statement; C09 covers its configuration round trip
+    ctx.observe("out_of_statement:array_alpha_text_form", {"cls": cls})
+    ctx.skip("B_array_alpha_observation_only")
+    return
   with rngmod.controlled() as stream:
     stream.set_grid(23, 64)
     try:
